@@ -362,6 +362,37 @@ def tryIntoScalar (m : Matrix α) : Outcome (Option α) :=
     | [] => .panic .unwrap
   else .ok none
 
+/-! ### row / column / diagonal getters (iterators.rs: `RowIterator`, `ColumnIterator`, `DiagonalIterator`) -/
+
+/-- the items an iterator collects through `get_reference_unchecked(row, column).clone()` along a
+    list of positions.  An access outside the storage is undefined behaviour in the real code; the
+    `verif-hooks` monitor turns it into a panic of kind `hook`, which is how it is modelled. -/
+def collectUnchecked (m : Matrix α) : List (Nat × Nat) → Outcome (List α)
+  | [] => .ok []
+  | (r, c) :: rest =>
+    match m.data[m.getIndex r c]? with
+    | none => .panic .hook
+    | some x =>
+      match collectUnchecked m rest with
+      | .panic k => .panic k
+      | .ok xs => .ok (x :: xs)
+
+/-- `row_iter(row).collect()`: `assert!(index_is_valid(row, 0))`, then the columns `0..columns` -/
+def rowIter (m : Matrix α) (row : Nat) : Outcome (List α) :=
+  if row < m.rows ∧ 0 < m.columns then
+    collectUnchecked m ((List.range m.columns).map fun c => (row, c))
+  else .panic .explicit
+
+/-- `column_iter(column).collect()`: `assert!(index_is_valid(0, column))`, then the rows `0..rows` -/
+def columnIter (m : Matrix α) (column : Nat) : Outcome (List α) :=
+  if 0 < m.rows ∧ column < m.columns then
+    collectUnchecked m ((List.range m.rows).map fun r => (r, column))
+  else .panic .explicit
+
+/-- `diagonal_iter().collect()`: the positions `(i, i)` for `i` in `0..min(rows, columns)` -/
+def diagonalIter (m : Matrix α) : Outcome (List α) :=
+  collectUnchecked m ((List.range (min m.rows m.columns)).map fun i => (i, i))
+
 /-! ### operations as data, histories -/
 
 /-- The operation alphabet of C11. -/
